@@ -456,9 +456,96 @@ fn prof_for(name: &str, tier: &str, wave: u64) -> Option<Profile> {
     Some(p)
 }
 
+/// "Wide" grammars: sizes beyond what the random generator produces - hundreds of rules / alternatives / sequence parts /
+/// fields, very long identifiers and literals, deep bracket nesting. Counters, tables and name schemes sized for
+/// "reasonable" grammars (u8 indices, fixed arrays, truncated names) show only here. Two per call, kinds rotate.
+pub fn wide_specs(seed: u64, wave: u64, plan: &str) -> Vec<GrammarSpec> {
+    let named = |f: &str, t: &str| Expr::Ref { field: FieldName::Named(f.into()), boxed: false, typ: t.into() };
+    let unit = |name: String, lit: String| RuleDef::Normal(NormalRule { name, directives: vec![], body: Expr::lit(&lit) });
+    let export = |name: &str, body: Expr| RuleDef::Normal(NormalRule { name: name.into(), directives: vec![Directive::Export], body });
+    let mut out = vec![];
+    for k in 0..2u64 {
+        let kind = (seed + wave * 2 + k) % 6;
+        let n = 257 + ((seed + wave) % 40) as usize;
+        let mut rules: Vec<RuleDef> = vec![];
+        match kind {
+            0 => {
+                // hundreds of rules, one field with hundreds of types (an enum with as many variants)
+                let arms: Vec<Expr> = (0..n).map(|i| named("t", &format!("T{i}"))).collect();
+                rules.push(export("Start", Expr::Seq(vec![Expr::Choice(arms), Expr::Eoi])));
+                for i in 0..n {
+                    rules.push(unit(format!("T{i}"), format!("x{i};")));
+                }
+            }
+            1 => {
+                // hundreds of parts in one sequence, a field every tenth part
+                let mut parts = vec![];
+                for i in 0..n {
+                    if i % 10 == 3 {
+                        parts.push(named(&format!("f{i}"), "char"));
+                    } else {
+                        parts.push(Expr::lit(&format!("{}", (b'a' + (i % 26) as u8) as char)));
+                    }
+                }
+                rules.push(export("Start", Expr::Seq(parts)));
+            }
+            2 => {
+                // hundreds of alternatives, longest first so that every one can win
+                let arms: Vec<Expr> = (0..n).rev().map(|i| Expr::lit(&format!("k{i}"))).collect();
+                rules.push(export("Start", Expr::Seq(vec![Expr::Plus(Box::new(Expr::Group(Box::new(Expr::Choice(arms))))), Expr::Eoi])));
+            }
+            3 => {
+                // very long identifiers and literals
+                let long_rule = format!("R{}", "x".repeat(300));
+                let long_field = format!("f{}", "y".repeat(300));
+                let long_lit: String = (0..1100).map(|i| (b'a' + (i % 7) as u8) as char).collect();
+                rules.push(export("Start", Expr::Seq(vec![named(&long_field, &long_rule), Expr::lit(&long_lit), named("z", "char")])));
+                rules.push(RuleDef::Normal(NormalRule { name: long_rule, directives: vec![Directive::String], body: Expr::Plus(Box::new(Expr::Range('0', '9'))) }));
+            }
+            4 => {
+                // a struct with many fields of all arities
+                let mut parts = vec![];
+                for i in 0..70 {
+                    let f = named(&format!("g{i}"), if i % 3 == 0 { "char" } else { "D" });
+                    parts.push(match i % 4 {
+                        0 => f,
+                        1 => Expr::Opt(Box::new(Expr::Seq(vec![Expr::lit("?"), f]))),
+                        2 => Expr::Star(Box::new(Expr::Seq(vec![Expr::lit(","), f]))),
+                        _ => Expr::Choice(vec![f, Expr::lit("-")]),
+                    });
+                }
+                rules.push(export("Start", Expr::Seq(parts)));
+                rules.push(RuleDef::Normal(NormalRule { name: "D".into(), directives: vec![Directive::String, Directive::NoSkipWs], body: Expr::Range('0', '9') }));
+            }
+            _ => {
+                // deep (valid) bracket nesting: 18 levels alternating ( ) [ ] { } (the model travels as JSON, whose readers
+                // stop at 128 levels)
+                let mut e = Expr::Seq(vec![named("c", "char"), Expr::lit(";")]);
+                for d in 0..18 {
+                    e = match d % 3 {
+                        0 => Expr::Group(Box::new(Expr::Choice(vec![e, Expr::lit(&format!("<{d}>"))]))),
+                        1 => Expr::Opt(Box::new(Expr::Seq(vec![Expr::lit("["), e, Expr::lit("]")]))),
+                        _ => Expr::Star(Box::new(Expr::Seq(vec![Expr::lit("{"), e, Expr::lit("}")]))),
+                    };
+                }
+                rules.push(export("Start", Expr::Seq(vec![e, Expr::Eoi])));
+            }
+        }
+        if let Ok(g) = gen::finish(Grammar { rules }.normalize()) {
+            let mut s = spec(format!("v{:04}", k), plan, g);
+            s.role = format!("wide{kind}");
+            out.push(s);
+        }
+    }
+    out
+}
+
 pub fn make(plan: &str, seed: u64, count: usize, tier: &str, wave: u64) -> (Vec<GrammarSpec>, serde_json::Value) {
     let mut stats = GenStats { attempts: 0, rejected: BTreeMap::new() };
     let mut specs = vec![];
+    if matches!(plan, "core" | "fields" | "types") {
+        specs.extend(wide_specs(seed, wave, plan));
+    }
     match plan {
         "leftrec" => specs = leftrec_specs(seed, count, wave, "g", &mut stats),
         "mixed" | "sched" | "errors" | "pos" => {
